@@ -38,6 +38,38 @@ pub fn small_position(g: &Gen, rng: &mut Rng) -> Option<Board> {
     if crate::refchess::valid(&b) { Some(b) } else { None }
 }
 
+/// a pawn one step from promotion whose promotion to a QUEEN stalemates the opponent (so that an under-promotion is the
+/// only way to keep the win): the value of the position depends on the rook / bishop / knight promotions being searched
+pub fn underpromotion_position(g: &Gen, rng: &mut Rng) -> Option<Board> {
+    for _ in 0..6000 {
+        let mut occ = [None::<(Color, Piece)>; 64];
+        let white = rng.chance(1, 2);
+        let (me, opp) = if white { (Color::White, Color::Black) } else { (Color::Black, Color::White) };
+        let seventh = if white { 6usize } else { 1 };
+        let pf = rng.below(8) as usize;
+        occ[seventh * 8 + pf] = Some((me, Piece::Pawn));
+        // the defending king near the promotion corner, mine near it
+        let near = |c: usize, rng: &mut Rng| -> usize { let r = (c / 8) as i32 + rng.below(5) as i32 - 2; let f = (c % 8) as i32 + rng.below(5) as i32 - 2; (r.clamp(0, 7) * 8 + f.clamp(0, 7)) as usize };
+        let target = (if white { 7 } else { 0 }) * 8 + pf;
+        let ok = near(target, rng);
+        let mk = near(ok, rng);
+        if occ[ok].is_some() || occ[mk].is_some() || ok == mk { continue; }
+        occ[ok] = Some((opp, Piece::King));
+        occ[mk] = Some((me, Piece::King));
+        if rng.chance(1, 3) { let s = 8 + rng.below(48) as usize; if occ[s].is_none() { occ[s] = Some((if rng.chance(1, 2) { me } else { opp }, Piece::Pawn)); } }
+        let mut pcs = [0u64; 6];
+        let (mut wbb, mut bbb) = (0u64, 0u64);
+        for s in 0..64 { if let Some((c, p)) = occ[s] { pcs[p.index()] |= 1 << s; if c == Color::White { wbb |= 1 << s } else { bbb |= 1 << s } } }
+        let b = match board_from_raw(pcs, wbb, bbb, me, 0, None, 0, 1) { Some(b) => b, None => continue };
+        if !crate::refchess::valid(&b) { continue; }
+        let ms = g.mg.generate_moves(&b);
+        let stalemating_queen = ms.iter().any(|m| m.move_type == MoveType::Promotion && m.piece_type == Piece::Queen && {
+            let c = b.clone_with_move(m); g.mg.generate_moves(&c).is_empty() && !g.mg.is_in_check(&c) });
+        if stalemating_queen { return Some(b); }
+    }
+    None
+}
+
 /// quiescence tree size of `b` measured by the engine itself under a node cap (None = above the cap)
 pub fn qsize(st: &mut ImplState, b: &Board, cap: u64) -> Option<u64> {
     let s = &mut st.searcher;
@@ -103,7 +135,8 @@ pub fn affordable_depth(b: &Board, d: u8, cap: u64) -> u8 {
 
 pub fn pick_search_position(g: &Gen, st: &mut ImplState, rng: &mut Rng, out: &mut Out, qcap: u64) -> Board {
     loop {
-        let cand = if rng.chance(1, 8) { let c = single_reply_position(g, rng); if c.is_some() { out.count("single_reply_candidates"); } c }
+        let cand = if rng.chance(1, 12) { let c = underpromotion_position(g, rng); if c.is_some() { out.count("underpromotion_needed_candidates"); } c }
+                   else if rng.chance(1, 8) { let c = single_reply_position(g, rng); if c.is_some() { out.count("single_reply_candidates"); } c }
                    else if rng.chance(3, 4) { small_position(g, rng) } else { Some(g.playout(rng, 80)) };
         if let Some(mut b) = cand {
             vary_counters(&mut b, rng);
